@@ -28,6 +28,40 @@ fn if_cmp(blocks: &[&syn::Block], needle: &str) -> Option<String> {
     }
     v.found
 }
+/// method calls whose result is propagated with `?` (`x.m(..)?`), over several blocks
+struct TryCalls {
+    methods: Vec<String>,
+}
+impl<'ast> Visit<'ast> for TryCalls {
+    fn visit_expr_try(&mut self, t: &'ast syn::ExprTry) {
+        if let syn::Expr::MethodCall(m) = &*t.expr {
+            self.methods.push(m.method.to_string());
+        }
+        syn::visit::visit_expr_try(self, t);
+    }
+}
+fn try_calls(blocks: &[&syn::Block]) -> Vec<String> {
+    let mut v = TryCalls { methods: vec![] };
+    for b in blocks {
+        v.visit_block(b);
+        // the value of the function's tail expression is returned as it is: also a propagation
+        if let Some(syn::Stmt::Expr(syn::Expr::MethodCall(m), None)) = b.stmts.last() {
+            v.methods.push(m.method.to_string());
+        }
+    }
+    v.methods
+}
+/// two-sided: `true` when `name(..)?` occurs (the failure is propagated), `false` when `name` is not called at all,
+/// refused when it is called but its result is consumed some other way (e.g. a `match` tolerating some errors)
+fn checked_call(what: &str, blocks: &[&syn::Block], name: &str) -> Result<bool, String> {
+    let called = calls_in_blocks(blocks).methods.iter().any(|m| m == name);
+    let tried = try_calls(blocks).iter().any(|m| m == name);
+    match (called, tried) {
+        (true, true) => Ok(true),
+        (false, _) => Ok(false),
+        (true, false) => Err(format!("{what}: `{name}(..)` is called but its error is not propagated with `?`")),
+    }
+}
 fn cmp_name(op: &str) -> Result<&'static str, String> {
     match op {
         ">=" => Ok("Cmp.ge"),
@@ -62,21 +96,18 @@ pub fn generate(repo: &PathBuf) -> Result<String, String> {
     let a_size = if_cmp(&add_b, "MAX_REG_ENTRY_SIZE").ok_or("add_op: no entry-size guard")?;
     let vc = calls_in_blocks(&verify_b);
     let verify_checks_owner_sig = vc.methods.iter().any(|m| m == "verify") && vc.methods.iter().any(|m| m == "owner");
-    let verify_checks_ops = vc.methods.iter().any(|m| m == "check_register_op");
-    let ac = calls_in_blocks(&add_b);
-    let add_checks_op = ac.methods.iter().any(|m| m == "check_register_op");
-    let mc = calls_in_blocks(&merge_b);
-    let merge_checks_base = mc.methods.iter().any(|m| m == "verify_is_mergeable");
+    let verify_checks_ops = checked_call("verify", &verify_b, "check_register_op")?;
+    let add_checks_op = checked_call("add_op", &add_b, "check_register_op")?;
+    let merge_checks_base = checked_call("merge", &merge_b, "verify_is_mergeable")?;
     let merge_limit = if_cmp(&merge_b, "MAX_REG_NUM_ENTRIES").is_some();
-    let vmc = calls_in_blocks(&vmerge_b);
-    let vmerge_checks_base = vmc.methods.iter().any(|m| m == "verify_is_mergeable");
-    let vmerge_verifies = vmc.methods.iter().any(|m| m == "verify");
+    let vmerge_checks_base = checked_call("verified_merge", &vmerge_b, "verify_is_mergeable")?;
+    let vmerge_verifies = checked_call("verified_merge", &vmerge_b, "verify")?;
     let vmerge_limit = if_cmp(&vmerge_b, "MAX_REG_NUM_ENTRIES").is_some();
     // check_register_op: address comparison present? permission check? signature check?
     let cc = calls_in_blocks(&check_b);
     let check_addr = if_cmp(&check_b, "address").map(|c| c == "!=").unwrap_or(false);
-    let check_perm = cc.methods.iter().any(|m| m == "check_user_permissions");
-    let check_sig = cc.methods.iter().any(|m| m == "verify_signature");
+    let check_perm = checked_call("check_register_op", &check_b, "check_user_permissions")?;
+    let check_sig = checked_call("check_register_op", &check_b, "verify_signature")?;
     let check_anyone_short = cc.methods.iter().any(|m| m == "can_anyone_write");
     let mg = mergeable.block.to_token_stream().to_string();
     let mergeable_addr = mg.contains("address");
